@@ -151,12 +151,16 @@ non-trivial = the call returned Some(_); distinct = distinct request lines".into
     // change unit) under the per-unit limits of two converters; the model takes the limits from the units files by the
     // documented layering (unit > quantity > system > all), independently of the code
     {
-        use crate::props::c09::{alt_world, bundled_world, quantity_case, random_quantity, QOp};
+        use crate::props::c09::{alt_world, bundled_world, layered_world, quantity_case, random_quantity, QOp};
         use cooklang::quantity::{Quantity, Value};
         let n_q = if ctx.thorough { 60_000 } else { 1_500 };
-        for (wi, w) in [Some(bundled_world()), alt_world()].into_iter().flatten().enumerate() {
+        let lay = layered_world();
+        if lay.is_none() { ctx.notes.push("corpus/C12/frac_layer.toml is missing or the stacked converter is rejected by ConverterBuilder: layered fraction settings not exercised".into()); }
+        for (wi, w) in [Some(bundled_world()), alt_world(), lay].into_iter().flatten().enumerate() {
+            if w.tag == "l" && ctx.model().one("cv l wf") != "true" { ctx.notes.push("the description generated for units.toml + corpus/C12/frac_layer.toml is not well formed (model refuses to run)".into()); }
             let mut r = rng.fork(100 + wi as u64);
-            for (v, u) in [((24.0, 30.0), "tsp"), ((1.5, 2.5), "kg"), ((0.25, 0.75), "cup"), ((7.5, 7.5), "tsp"), ((0.3125, 0.3125), "tsp"), ((3.5, 4.25), "kg")] {
+            for (v, u) in [((24.0, 30.0), "tsp"), ((1.5, 2.5), "kg"), ((0.25, 0.75), "cup"), ((7.5, 7.5), "tsp"), ((0.3125, 0.3125), "tsp"), ((3.5, 4.25), "kg"),
+                            ((2.55, 2.55), "lb"), ((20.5, 20.5), "lb"), ((10.5, 10.5), "oz"), ((0.26, 0.26), "tbsp"), ((3.5, 3.5), "kg"), ((2.5, 2.5), "kg"), ((0.3, 0.3), "ft"), ((12.5, 12.5), "cup")] {
                 if w.conv.find_unit(u).is_none() { continue; }
                 let val = if v.0 == v.1 { Value::Number(Number::Regular(v.0)) } else { Value::Range { start: Number::Regular(v.0), end: Number::Regular(v.1) } };
                 let q = Quantity::new(val, Some(u.to_string()));
